@@ -20,10 +20,14 @@ pub mod c16;
 pub mod c17;
 pub mod c19;
 pub mod codec;
+pub mod miri;
 pub mod streams;
 
 /// Run the workload of property `prop` in `ctx`.
 pub fn run(prop: &str, ctx: &mut Ctx) -> Result<(), String> {
+    if cfg!(miri) {
+        return miri::run(prop, ctx);
+    }
     match prop {
         "C01" => c01::run(ctx),
         "C08" => c08::run(ctx),
